@@ -2,6 +2,7 @@
   C11 — scaled data is gain*raw+offset, element by element, in the requested dtype.
 -/
 import NiVerif.Model.Scaling
+import NiVerif.Gen.ScaledData
 
 namespace Props.C11
 open Model.Scaling Model.Complex Gen.Scaling
@@ -232,5 +233,61 @@ theorem scaled_data_eq (w : Wf) : scaledData w = getScaled w none (some 0) none 
 -- non-vacuity: 0.1 * 1 + 0.5 in single precision
 example : getScaled ⟨.analog, .other "int32", [(⟨1, 0⟩, ⟨0, 0⟩)], .linear ⟨3602879701896397, 55⟩ ⟨1, 1⟩ .floatSubclass .pyfloat⟩ (some .f32) none none
     = .ok (.f32, [(⟨5033165 * 2 ^ 32, 55⟩, ⟨0, 0⟩)]) := by decide +kernel
+
+/-! ### T23: `get_scaled_data` end to end, as regenerated from the sources -/
+
+/-- the default and the supported scaled dtypes of the two numeric classes, as read from the sources, are the model's -/
+theorem gen_scaled_dtype_tables (k : WKind) (d : SDt) :
+    Gen.ScaledData.default_scaled_dtype k = defaultDtype k ∧ (Gen.ScaledData.supported_scaled_dtypes k).contains d = supportedScaled k d := by
+  cases k <;> cases d <;> simp [Gen.ScaledData.default_scaled_dtype, Gen.ScaledData.supported_scaled_dtypes, defaultDtype, supportedScaled]
+
+theorem get_scaled_core (w : Wf) (dt : SDt) (start count : Option Int) :
+    (if ¬ ((Gen.ScaledData.supported_scaled_dtypes w.kind).contains dt = true) then Except.error PyErr.TypeError else
+      Except.bind (window w.data.length start count) (fun sc =>
+      Except.bind (convertData w dt ((w.data.drop sc.1).take sc.2)) (fun converted_data =>
+      Except.bind (resultDtype dt w.mode) (fun rdt =>
+        Except.ok (rdt, converted_data.map (scaleElem dt.bits w.kind w.mode))))))
+    = (if !supportedScaled w.kind dt then .error .TypeError
+       else match window w.data.length start count with
+        | .error e => .error e
+        | .ok (s, c) =>
+          match convertData w dt ((w.data.drop s).take c) with
+          | .error e => .error e
+          | .ok conv =>
+            match resultDtype dt w.mode with
+            | .error e => .error e
+            | .ok rdt => .ok (rdt, conv.map (scaleElem dt.bits w.kind w.mode))) := by
+  rw [(gen_scaled_dtype_tables w.kind dt).2]
+  cases hs : supportedScaled w.kind dt with
+  | false => simp
+  | true =>
+    simp only [Bool.not_true, Bool.false_eq_true, not_true_eq_false, if_false, Except.bind]
+    cases hw : window w.data.length start count with
+    | error e => rfl
+    | ok sc =>
+      obtain ⟨s, c⟩ := sc
+      simp only
+      cases hc : convertData w dt ((w.data.drop s).take c) with
+      | error e => rfl
+      | ok conv =>
+        simp only
+        cases hr : resultDtype dt w.mode <;> rfl
+
+/-- **`get_scaled_data` as regenerated from the source is the model's `getScaled`**: default dtype, `validate_dtype` (TypeError) before
+    the window (ValueError) before the conversion, then the scale mode; and `scaled_data` is `get_scaled_data()` -/
+theorem gen_get_scaled_eq_model (w : Wf) (req : Option SDt) (start count : Option Int) :
+    Gen.ScaledData.get_scaled_data w req start count = getScaled w req start count := by
+  unfold Gen.ScaledData.get_scaled_data getScaled
+  cases req with
+  | none =>
+    simp only [Option.getD, (gen_scaled_dtype_tables w.kind .f32).1]
+    exact get_scaled_core w (defaultDtype w.kind) start count
+  | some d =>
+    simp only [Option.getD]
+    exact get_scaled_core w d start count
+
+theorem gen_scaled_data_eq_model (w : Wf) : Gen.ScaledData.scaled_data w = scaledData w := by
+  unfold Gen.ScaledData.scaled_data scaledData
+  exact gen_get_scaled_eq_model w none (some 0) none
 
 end Props.C11
